@@ -278,6 +278,7 @@ def main(argv: List[str]) -> int:
     args = ap.parse_args(argv)
     seed = int(os.environ.get("VERIF_SEED", "0") or 0)
     os.environ["DATA_ALGEBRA_VERIF"] = "1"
+    os.environ["VERIF_TIER_ACTIVE"] = args.tier
     if args.relock:
         os.environ["PYVC_RELOCK"] = "1"
     t0 = time.time()
